@@ -329,6 +329,11 @@ def gen_cases(rng, n):
             case = {"par": par, "pool": pool, "hists": [gen_ops(rng, par, pool, n_ops)], "incr": None}
             if rng.random() < 0.25:
                 case["other"] = gen_params(rng)
+            if rng.random() < 0.04:
+                # a pool of unlimited supply (oracle-only stream): writes and reads only
+                case["pool"] = dict(pool, supply=["f", rng.choice(["inf", "inf", "-inf"])])
+                case["hists"] = [[op for op in h if op[0] in ("w", "r")] or [["w", ["i", "12"]]] for h in case["hists"]]
+                case["infsupply"] = True
             yield case
 
 
@@ -469,6 +474,31 @@ def _in_domain(case, P):
     return True
 
 
+def _oracle_infinite_supply(case, res, P):
+    """a pool reporting infinite supply: a limit that is undefined (inf - inf) cannot interfere; what does reach
+    the target still obeys minimum / maximum, is never NaN, and is the rounded written value when nothing cuts"""
+    v = []
+    s = float(V(case["pool"]["supply"]))
+    g = P["granularity"]
+    lo, hi = s - float(P["backlog"]), s + float(P["surplus"])
+    for hi_, h in enumerate(res["hists"]):
+        if h["end"] is not None:
+            v.append((None, "infinite supply: history %d ended with %s at %s" % (hi_, h["end"], h["ops"][len(h["obs"]):][:1])))
+        for i, (op, o) in enumerate(zip(h["ops"], h["obs"])):
+            if op[0] != "w" or not fin(V(op[1])):
+                continue
+            where = "supply %s, history %d step %d %s" % (s, hi_, i, op)
+            x, td = V(op[1]), V(o["td"])
+            if not P["minimum"] <= td <= P["maximum"]:
+                v.append((None, "limits: forwarded %s outside [minimum %s, maximum %s]; %s" % (td, P["minimum"], P["maximum"], where)))
+            rounded = x if g == 1 else (x // g) * g
+            cut = (lo == lo and rounded < lo) or (hi == hi and rounded > hi) or not P["minimum"] <= rounded <= P["maximum"] \
+                or (lo == lo and x < lo) or (hi == hi and x > hi) or not P["minimum"] <= x <= P["maximum"]
+            if not cut and td != rounded:
+                v.append((None, "rounding: no defined limit interferes but forwarded %s is not %s; %s" % (td, rounded, where)))
+    return v
+
+
 def oracle(case, res):
     v = []
     if "harness_error" in res:
@@ -481,6 +511,8 @@ def oracle(case, res):
         return v
     if res["ctor"] != "ok":
         return [(None, "constructor: valid parameters rejected (%s): %s" % (res["ctor"], case["par"]))]
+    if case.get("infsupply"):
+        return v + _oracle_infinite_supply(case, res, P)
     if not _in_domain(case, P):
         return v
     g = P["granularity"]
@@ -610,6 +642,8 @@ def _cop(op):
 
 
 def coq_case(case, res):
+    if case.get("infsupply"):
+        return None        # infinite supply makes limits undefined (inf - inf): judged by the oracle only, see oracle()
     P = full_params(case["par"])
     par = "(mkParams %s %s %s %s %s)" % tuple(cnum(P[k]) for k in PARAMS)
     pool = "(mkPool %s %s %s %s)" % tuple(cnum(case["pool"][k]) for k in ("demand", "supply", "util", "alloc"))
